@@ -617,7 +617,10 @@ class Array(metaclass=MetaArray):
                     + cls._data_offset
                     + get_offset(index, self._strides)
                 )
-            cls._itemtype._to_buffer(self._buffer, offset, value)
+            if hasattr(cls._itemtype, "_set_in_place"):
+                cls._itemtype._set_in_place(self._buffer, offset, value)
+            else:
+                cls._itemtype._to_buffer(self._buffer, offset, value)
 
     def _update(self, value):
         if is_integer(value):
